@@ -1,4 +1,4 @@
-CONSTANTS Paths <- PathsQuick
+CONSTANTS Paths <- PathsSmall
  Kinds = {"f0", "f1", "d1", "l0"}
  MaxLen = 3
  Conflicts = TRUE
